@@ -121,6 +121,7 @@ Proof. split; vm_compute; reflexivity. Qed.
 
 PROPS['C11'] = dict(
     title='C11 - context expressions mean what their Python spelling means, and print as it',
+    requires=['PyExpr'],
     requires_gen=['ExprTable'],
     theorems=[
         ('ExprFacts', 'table_binops', 'The overload table REGENERATED from construct/expr.py (gen/ExprTable.v) is, as a set, the table Python\'s data model prescribes: each dunder builds its own operator, reflected variants put self on the right.'),
@@ -133,6 +134,11 @@ PROPS['C11'] = dict(
         ('ExprFacts', 'eval_item_native', 'Item / attribute paths denote plain subscripting.'),
         ('ExprFacts', 'reflected_sub_order', 'Reflected operands keep their order: constant - expression subtracts in that order.'),
         ('ExprFacts', 'floordiv_mod_python', 'Integer // and % are Python\'s (floor division; sign of the divisor).'),
+        ('PyExprFacts', 'pyparse_print', 'PRINTING, every well-formed tree (any nesting of the 18 binary and 3 unary operators, item paths of any length, the five helpers, int/bool/None/str/bytes constants): the tokens repr() prints, read by Python\'s expression grammar (precedence climbing with Python\'s levels and associativity, unary signs, not, subscripts, calls), give back the tree - negative literals as the sign applied to the magnitude.'),
+        ('PyExprFacts', 'eval_unfold_neg', 'That reading of negative literals evaluates identically in every context.'),
+        ('PyExprFacts', 'C11_repr_denotes_the_expression', 'Hence repr(e) denotes the function e denotes: the parsed tree evaluates as e does for every context, as a context parameter and as a predicate over (obj, list, ctx).'),
+        ('PyExprFacts', 'ex_bare_unary_differs', 'The parentheses _operandrepr writes are needed: (- a ** b) is read as -(a ** b), a different tree from (-a) ** b.'),
+        ('PyExprFacts', 'print_contains_refuted', 'REFUTED for operator.contains (outside the operator table of the property; unreachable through the `in` operator): BinExpr(contains, a, b) prints (a in b), which Python reads as contains(b, a).'),
     ],
     examples='''
 Example C11_ex_eval :
